@@ -57,10 +57,8 @@ ASSUMPTIONS = ["operation ids are unique within a run (no reuse while live or af
                "release/inactive clauses still are",
                "what a stepped release() of one of several holds must do is not specified by the statement; only the end of "
                "the operation is judged",
-               "an operation killed at a controller step before its work function is entered has ended by that kill; that "
-               "execute_operation goes on, runs work_fn without the resources the kill released and may report success is "
-               "counted (probe work_ran_after_kill_without_all_resources) but not judged under work_holds_all - the release, "
-               "inactive and untouched clauses are judged when the call returns",
+               "an operation killed at a controller step before its work function is entered must not run it without its "
+               "resources (work_holds_all is judged at entry in that case too; this was a defect of the original code, repaired)",
                "an exception escaping execute_operation is not itself a violation (the statement speaks about the state when "
                "the call returns); the release clauses are judged all the same"]
 EXPECT_PROBES = ("exit_commit", "exit_blocked", "exit_unknown_resource", "exit_checkpoint_false", "exit_checkpoint_raise",
@@ -69,7 +67,7 @@ EXPECT_PROBES = ("exit_commit", "exit_blocked", "exit_unknown_resource", "exit_c
                  "preempting_hold", "foreign_holder_met", "reenter_fired", "nested_exec", "two_faults", "via_cell",
                  "stall_killed_inside_work", "stepped_reentrant_hold", "table_case", "step_kill_fired", "step_kill_acq_before",
                  "step_kill_acq_after", "step_kill_adv_before", "acquired_after_being_killed", "exit_after_kill_failure",
-                 "exit_after_kill_commit", "falsy_work_result", "work_ran_after_kill")
+                 "exit_after_kill_commit", "falsy_work_result")
 
 RES = ["r0", "r1", "r2"]
 PHASES = {"G0": Phase.G0, "G1": Phase.G1, "S": Phase.S, "G2": Phase.G2, "M": Phase.M}
@@ -562,11 +560,11 @@ def run(plan, k):
         def work():
             st["work"] += 1
             missing = [r for r in requested if ctrl.resources[r].owner != opid]
-            if opid in w.live:
-                st["held_at_entry"] = missing
-            else:
-                # the operation was killed at an earlier controller step and execute_operation went on regardless;
-                # whether work may still run then is not settled by the statement (see ASSUMPTIONS): counted only
+            # "the work function runs ... only while the operation holds all requested resources": judged at entry,
+            # also for an operation that was killed at an earlier controller step (the kill released its resources;
+            # running the work function regardless is exactly what the clause forbids)
+            st["held_at_entry"] = missing
+            if opid not in w.live:
                 k.probe("work_ran_after_kill")
                 if missing:
                     k.probe("work_ran_after_kill_without_all_resources")
